@@ -118,9 +118,22 @@ impl Location
 	{
 		let start = std::cmp::min(self.span.start, other.span.start);
 		let end = std::cmp::max(self.span.end, other.span.end);
-		Location {
-			span: start..end,
-			..self
+		// The line is the line on which the combined span starts.
+		if other.span.start < self.span.start
+		{
+			Location {
+				span: start..end,
+				line_number: other.line_number,
+				line_offset: other.line_offset,
+				..self
+			}
+		}
+		else
+		{
+			Location {
+				span: start..end,
+				..self
+			}
 		}
 	}
 
